@@ -2523,3 +2523,20 @@ Proof.
            end. discriminate.
   - intros i [<-|[]]. change (nexti fs2t) with 1. lia.
 Qed.
+
+(* the invariant asks nothing of a tree beyond a working directory reached through real directories
+   and inode numbers below nexti: declaring every inode tainted satisfies the rest *)
+Definition with_taint (t : list nat) (f : fsys) : fsys :=
+  mkFS (ents f) (cont f) (nexti f) (dmode f) (fstamp f) (dstamp f) t.
+
+Lemma inv_any_tree wd f :
+  (forall q r, wd = q ++ r -> q <> [] -> lookup f q = Some NDir) ->
+  (forall p i, lookup f p = Some (NFile i) -> i < nexti f) ->
+  Inv wd (with_taint (seq 0 (nexti f)) f).
+Proof.
+  intros Hwd Hfresh. constructor.
+  - exact Hwd.
+  - intros p q i Lp _ _. right. apply in_seq. apply Hfresh in Lp. simpl in *. lia.
+  - exact Hfresh.
+  - intros i Hi. apply in_seq in Hi. simpl in *. lia.
+Qed.
